@@ -333,7 +333,7 @@ static void iauth_xquery_x_reply(const char service[], const char routing[],
         if ((cli->ref_mask & (1u << ii)) == 0)
             continue;
         srv = iauth_xquery_services.vec[ii];
-        if ((srv != NULL) && (0 == strcmp(service, srv->name)))
+        if ((srv != NULL) && (0 == strcasecmp(service, srv->name)))
             break;
     }
     if (ii >= iauth_xquery_services.used)
